@@ -9,6 +9,7 @@ import (
 	"sort"
 	"strconv"
 	"strings"
+	"sync"
 	"time"
 	"unicode/utf8"
 
@@ -20,9 +21,39 @@ import (
 // is essentially constant.
 var regCache map[string]*regexp.Regexp
 
+// regCacheLock guards regCache, which is shared by every evaluator
+// in the process - and those may be used from different goroutines.
+var regCacheLock sync.RWMutex
+
 // init ensures that our regexp cache is populated
 func init() {
 	regCache = make(map[string]*regexp.Regexp)
+}
+
+// cachedRegexp returns the compiled form of the given regular expression,
+// compiling it and adding it to our cache if it is new.
+func cachedRegexp(reg string) (*regexp.Regexp, error) {
+
+	// Look for the compiled regular-expression object in our cache.
+	regCacheLock.RLock()
+	r, ok := regCache[reg]
+	regCacheLock.RUnlock()
+	if ok {
+		return r, nil
+	}
+
+	// OK it wasn't found, so compile it.
+	r, err := regexp.Compile(reg)
+	if err != nil {
+		return nil, err
+	}
+
+	// store in the cache for next time
+	regCacheLock.Lock()
+	regCache[reg] = r
+	regCacheLock.Unlock()
+
+	return r, nil
 }
 
 // fnBetween is the implementation of our between function.
@@ -268,22 +299,13 @@ func fnMatch(args []object.Object) object.Object {
 	str := args[0].Inspect()
 	reg := args[1].Inspect()
 
-	// Look for the compiled regular-expression object in our cache.
-	r, ok := regCache[reg]
-	if !ok {
+	// Get the compiled regular-expression object, via our cache.
+	r, err := cachedRegexp(reg)
 
-		// OK it wasn't found, so compile it.
-		var err error
-		r, err = regexp.Compile(reg)
-
-		// Ensure it compiled
-		if err != nil {
-			fmt.Printf("Invalid regular expression %s %s", reg, err.Error())
-			return &object.Boolean{Value: false}
-		}
-
-		// store in the cache for next time
-		regCache[reg] = r
+	// Ensure it compiled
+	if err != nil {
+		fmt.Printf("Invalid regular expression %s %s", reg, err.Error())
+		return &object.Boolean{Value: false}
 	}
 
 	// Split the input by newline.
@@ -545,22 +567,13 @@ func fnReplace(args []object.Object) object.Object {
 	replace := args[2].Inspect()
 
 
-	// Look for the compiled regular-expression object in our cache.
-	r, ok := regCache[reg]
-	if !ok {
+	// Get the compiled regular-expression object, via our cache.
+	r, err := cachedRegexp(reg)
 
-		// OK it wasn't found, so compile it.
-		var err error
-		r, err = regexp.Compile(reg)
-
-		// Ensure it compiled
-		if err != nil {
-			fmt.Printf("Invalid regular expression %s %s", reg, err.Error())
-			return &object.Boolean{Value: false}
-		}
-
-		// store in the cache for next time
-		regCache[reg] = r
+	// Ensure it compiled
+	if err != nil {
+		fmt.Printf("Invalid regular expression %s %s", reg, err.Error())
+		return &object.Boolean{Value: false}
 	}
 
 	out := r.ReplaceAll([]byte(str), []byte(replace))
